@@ -67,6 +67,7 @@ func metaFieldStores(fn *ssa.Function) map[string][]metaStore {
 }
 
 func checkC01(p *Program, r *Reporter) {
+	unitsRuleByName(p, r, "genLiveSegment", "findSegMetaFromNr", "findSegMetaFromTime")
 	r.Explanation = "Static analysis of structural necessary conditions of C01 by dependence slices: (a) the two addressing siblings ($Number$ and $Time$ lookup) fill the segment metadata from the same sources: original time/number/duration from the selected VoD segment, the timescale from the representation, the new time (by number) from the VoD start time, the loop duration and the requested number, the new number (by time) from the configured start number, the loop count and the index; " +
 		"(b) the served segment is rewritten from that metadata: the sequence number written into every fragment depends on the new number, the decode time on the new time, the sidx earliest presentation time on the new time, and embedded TTML timestamps are shifted by the very value the decode time is shifted by. " +
 		"Numeric correctness (n mod N, floor(n/N)*loopDuration, contiguity across wraps) and sample identity are not decided."
@@ -227,6 +228,7 @@ func checkC01(p *Program, r *Reporter) {
 }
 
 func checkC12(p *Program, r *Reporter) {
+	unitsRuleByName(p, r, "addTimeSubs", "writeTimeSubsMediaSegment", "createSubtitlesStppMediaSegment", "createSubtitlesWvttMediaSegment")
 	r.Explanation = "Static analysis of structural necessary conditions of C12: (a) the generated stpp and wvtt segments get their number, decode time and duration from the reference video segment (dependence of the generator arguments on the reference metadata and its timescale), the UTC time of the cues additionally from the availability start time, and both generators receive the very same values; " +
 		"(b) the millisecond timescale is one constant at all its sites (MPD template, timeline conversion, init segment, segment time conversion); (c) the subtitle adaptation set mirrors the video template: start number, duration and SegmentTimeline are derived from the video adaptation set's. " +
 		"Which cues a segment contains, their clipping, ordering and text are not decided."
